@@ -98,7 +98,7 @@ def make_files(tier, rng, ctx):
     files.append({'name': 'afterdelete64', 'k': 31, 'path': pdel, 'cli': False, 'targeted': True, 'sample': (300, 2500) if tier == 'quick' else (3000, 30000)})
     if tier == 'thorough':
         # 8 MiB and more: a loader that treats large files differently
-        gg = G.rseq(rng, 700000)
+        gg = G.rseq(rng, 950000)
         files.append({'name': 'giant64', 'k': 31, 'path': build('giant64', 31, [[gg]]), 'cli': False, 'targeted': True, 'sample': (200, 2500)})
     if tier == 'thorough':
         big = G.rseq(rng, 8000)
